@@ -35,7 +35,7 @@ def main():
     seed, props = os.path.abspath(args[0]), args[1:]
     patch = os.path.join(seed, "patch.diff")
     demos = [f for f in os.listdir(seed) if f.endswith("_test.go")]
-    res = {"seed": seed, "props": props}
+    res = {"seed": seed, "props": props, "tier": tier}
     wt = tempfile.mkdtemp(prefix="seedwt-")
     os.rmdir(wt)
     rc, out = sh(["git", "-C", "/repo", "worktree", "add", "-q", "--detach", wt, "HEAD"], "/repo")
